@@ -16,6 +16,24 @@ for line in p.stdout.splitlines():
     if 'Test' in ev and ev.get('Action') in ('pass', 'fail'):
         name = ev['Package'] + '::' + ev['Test']
         (passed if ev['Action'] == 'pass' else failed).add(name)
+# test/server's TestBasicAuth*/TestCasbinAccess dial the server they just started and fail
+# with "connection refused" when the machine is busy (with and without any change to /repo):
+# tests that did not pass are re-run on their own, up to three times
+for attempt in range(3):
+    missing = sorted(stable - passed)
+    if not missing:
+        break
+    for pkg in sorted({m.split('::')[0] for m in missing}):
+        names = '|'.join(m.split('::')[1] for m in missing if m.startswith(pkg + '::'))
+        q = subprocess.run(['go', 'test', '-json', '-vet=off', '-count=1', '-timeout', '10m'] + tags + ['-run', '^(' + names + ')$', pkg],
+                           cwd='/repo', env=env, capture_output=True, text=True)
+        for line in q.stdout.splitlines():
+            try:
+                ev = json.loads(line)
+            except Exception:
+                continue
+            if 'Test' in ev and ev.get('Action') == 'pass':
+                passed.add(ev['Package'] + '::' + ev['Test'])
 missing = sorted(stable - passed)
 print(f"stable baseline: {len(stable)}  passed now: {len(stable & passed)}  missing/failed: {len(missing)}")
 for m in missing:
